@@ -170,6 +170,12 @@ def uuid_part(res, work, tier, rng):
     for ns in ["nil", "dns", "max", "6ba7b811-9dad-11d1-80b4-00c04fd430c8"]:
         hs.append({"ns": ns, "threads": [2, 2, 2], "sched": {"mode": "all", "max": 200 if tier == "quick" else 5000}})
         hs.append({"ns": ns, "threads": [3, 1, 2, 2], "sched": {"mode": "pct", "seed": seed() + 5, "runs": 50 if tier == "quick" else 1000}})
+    # "for every number of calls": counters positioned (through the generator's serde form) just below
+    # every change of the number of decimal digits and below the binary boundaries
+    starts = [10 ** k - 3 for k in range(1, 20)] + [2 ** 32 - 3, 2 ** 53 - 3, 2 ** 63 - 3, 2 ** 64 - 8, 9999 * 10 ** 4 - 2, 10 ** 8 + 10 ** 4 - 2]
+    for i, st in enumerate(starts):
+        hs.append({"ns": ["dns", "nil"][i % 2], "start": str(st), "threads": [3, 3], "sched": {"mode": "pct", "seed": seed() + i, "runs": 3 if tier == "quick" else 30}})
+    hs.append({"ns": "dns", "threads": [1500 if tier == "quick" else 30000], "sched": {"mode": "random", "seed": 1, "runs": 1}})
     h = run_harness("uuid", hs, work, "uuid")
     s = tv(h["trace"], "TraceUuid", "TraceUuid", work)
     res.add(traces_validated_against_impl=s["execs"], events_validated=s["lines"], uuid_calls=s["calls"], uuid_drifts=len(s["drifts"]))
